@@ -94,40 +94,24 @@ Theorem C05_compositional_tuple : forall s md l, plain_site s md = true ->
 Proof. intros s md l Hs. apply comp_tuple; [constructor | exact Hs]. Qed.
 
 (* All five sites, both modes (namespace-qualified return/event types and Zod parameter/field
-   schemas included), every constructor spine up to depth 2 - the enumeration of the quick tier:
-   outside the classes the specification accepts the model's text. Bounded, hence _partial. *)
+   schemas included), every constructor spine up to depth 2 - the enumeration of the quick tier.
+   [sound_at s md t] reads: the model prints a text at the site and, unless the case lies in a
+   recorded class (kf_C05), the specification accepts that text (c05_ok).
+   Bounded, hence _partial. *)
 Theorem C05_sweep_sound_depth2_partial :
-  forall t, In t (spines 2) -> forall s md,
-    dom_b t = true /\
-    (kf_C05 s md [] t = false ->
-     exists text, emit_type s md [] t = Some text /\ c05_ok s md [] t text = true).
-Proof.
-  intros t Ht s md. split.
-  - destruct sweep_domain_depth2 as [H _]. rewrite forallb_forall in H. auto.
-  - intros Hk. pose proof sweep_sound_depth2 as H. unfold sweep in H. rewrite forallb_forall in H.
-    specialize (H t Ht). rewrite forallb_forall in H.
-    assert (Hs : In s sites_all) by (destruct s; simpl; tauto). specialize (H s Hs).
-    rewrite forallb_forall in H.
-    assert (Hm : In md modes_all) by (destruct md; simpl; tauto). specialize (H md Hm).
-    unfold sound_at in H. destruct (emit_type s md [] t) as [text|]; [|discriminate].
-    exists text. split; [reflexivity|]. rewrite Hk in H. exact H.
-Qed.
+  forall t, In t (spines 2) -> forall s md, sound_at s md t = true.
+Proof. exact (sweep_spec sound_at (spines 2) sweep_sound_depth2). Qed.
 
-(* ... and the site-specific classes are exact there: inside them the specification rejects it *)
+Theorem C05_sweep_domain_depth2_partial :
+  forall t, In t (spines 2) -> dom_b t = true.
+Proof. exact (proj1 (forallb_forall dom_b (spines 2)) (proj1 sweep_domain_depth2)). Qed.
+
+(* ... and the site-specific classes are exact there. [exact_at s md t] reads: if t is outside the
+   two parser classes and inside one of the six site-specific classes, the specification rejects
+   the text the model prints. *)
 Theorem C05_classes_exact_depth2_partial :
-  forall t, In t (spines 2) -> forall s md text,
-    kf_result_ok_has_comma t = false -> kf_tuple_elem_has_comma t = false ->
-    existsb (fun k => in_class k s md [] t) site_classes = true ->
-    emit_type s md [] t = Some text -> c05_ok s md [] t text = false.
-Proof.
-  intros t Ht s md text H1 H2 Hc He. pose proof sweep_exact_depth2 as H. unfold sweep in H.
-  rewrite forallb_forall in H. specialize (H t Ht). rewrite forallb_forall in H.
-  assert (Hs : In s sites_all) by (destruct s; simpl; tauto). specialize (H s Hs).
-  rewrite forallb_forall in H.
-  assert (Hm : In md modes_all) by (destruct md; simpl; tauto). specialize (H md Hm).
-  unfold exact_at in H. rewrite H1, H2, He, Hc in H. cbn [orb andb negb] in H.
-  destruct (c05_ok s md [] t text); [discriminate H | reflexivity].
-Qed.
+  forall t, In t (spines 2) -> forall s md, exact_at s md t = true.
+Proof. exact (sweep_spec exact_at (spines 2) sweep_exact_depth2). Qed.
 
 (* Each recorded class is a genuine failure of the faithful model: an in-domain type that lies in
    that class only, and whose printed text the specification rejects. *)
@@ -185,6 +169,7 @@ Print Assumptions C05_compositional_ref.
 Print Assumptions C05_compositional_map.
 Print Assumptions C05_compositional_tuple.
 Print Assumptions C05_sweep_sound_depth2_partial.
+Print Assumptions C05_sweep_domain_depth2_partial.
 Print Assumptions C05_classes_exact_depth2_partial.
 Print Assumptions C05_union_under_seq_refuted.
 Print Assumptions C05_result_ok_has_comma_refuted.
